@@ -251,6 +251,8 @@ Section Loop.
   | SAccumOr (dst : nat) (g : K -> V -> bool)                            (* dst = dst || g k v *)
   | SAccumAnd (dst : nat) (g : K -> V -> bool)
   | SFlagSet (dst : nat) (cond : K -> V -> bool) (c : I)                 (* if cond { dst = c } *)
+  | SAssignAtKey (dst : nat) (c : K) (g : K -> V -> I)                   (* if k == c { dst = g k v }: at most one key takes it *)
+  | SUpdateAtKey (dst : nat) (h : K -> V -> option I -> I)               (* dst[k] = h k v dst[k]: reads and writes its own element only *)
   (* order-sensitive kinds *)
   | SAssign (dst : nat) (cond : K -> V -> bool) (g : K -> V -> I)        (* if cond { dst = g k v } *)
   | SMapWriteOther (dst : nat) (f : K -> V -> K) (g : K -> V -> I).      (* dst[f k v] = g k v *)
@@ -258,7 +260,7 @@ Section Loop.
   Definition stmt_dst (s : stmt) : nat :=
     match s with
     | SMapWriteKey d _ _ | SMapDeleteKey d _ | SAppend d _ _ | SAccumInt d _ | SAccumOr d _
-    | SAccumAnd d _ | SFlagSet d _ _ | SAssign d _ _ | SMapWriteOther d _ _ => d
+    | SAccumAnd d _ | SFlagSet d _ _ | SAssignAtKey d _ _ | SUpdateAtKey d _ | SAssign d _ _ | SMapWriteOther d _ _ => d
     end.
 
   (* what one statement does to the cell it addresses, for the visited pair (k, v); a statement addressing
@@ -272,6 +274,8 @@ Section Loop.
     | SAccumOr _ g, COr b => COr (b || g k v)
     | SAccumAnd _ g, CAnd b => CAnd (b && g k v)
     | SFlagSet _ cond x, CFlag _ => if cond k v then CFlag (Some x) else c
+    | SAssignAtKey _ x g, CFlag _ => if keq k x then CFlag (Some (g k v)) else c
+    | SUpdateAtKey _ h, CMap m => CMap (upsert keq k (h k v (lookup keq k m)) m)
     | SAssign _ cond g, CFlag _ => if cond k v then CFlag (Some (g k v)) else c
     | SMapWriteOther _ f g, CMap m => CMap (upsert keq (f k v) (g k v) m)
     | _, _ => c
@@ -302,10 +306,13 @@ Section Loop.
     | _ => true
     end.
 
-  (* all constant assignments to one variable assign the same constant *)
+  (* all constant assignments to one variable assign the same constant; all key-guarded assignments to one variable
+     are guarded by the same key; a variable takes either constants or a key-guarded value, not both *)
   Definition flags_agree (s1 s2 : stmt) : bool :=
     match s1, s2 with
     | SFlagSet d1 _ c1, SFlagSet d2 _ c2 => negb (Nat.eqb d1 d2) || ieq c1 c2
+    | SAssignAtKey d1 c1 _, SAssignAtKey d2 c2 _ => negb (Nat.eqb d1 d2) || keq c1 c2
+    | SAssignAtKey d1 _ _, SFlagSet d2 _ _ | SFlagSet d1 _ _, SAssignAtKey d2 _ _ => negb (Nat.eqb d1 d2)
     | _, _ => true
     end.
 
@@ -322,6 +329,8 @@ Section Loop.
     | SAccumInt _ _ => EAccumInt
     | SAccumOr _ _ | SAccumAnd _ _ => EAccumBool
     | SFlagSet _ _ _ => EFlagSet
+    | SAssignAtKey _ _ _ => EAssignOuter     (* the translator does not see the guard: needs a reviewed exception *)
+    | SUpdateAtKey _ _ => EMapWriteKey
     | SAssign _ _ _ => EAssignOuter
     | SMapWriteOther _ _ _ => EMapWriteOther
     end.
@@ -336,6 +345,7 @@ Arguments CAnd {K I}. Arguments CFlag {K I}.
 Arguments SMapWriteKey {K V I}. Arguments SMapDeleteKey {K V I}. Arguments SAppend {K V I}.
 Arguments SAccumInt {K V I}. Arguments SAccumOr {K V I}. Arguments SAccumAnd {K V I}.
 Arguments SFlagSet {K V I}. Arguments SAssign {K V I}. Arguments SMapWriteOther {K V I}.
+Arguments SAssignAtKey {K V I}. Arguments SUpdateAtKey {K V I}.
 
 (* ================================================================================================ *)
 (** * Part 4: order-sensitive schemas *)
